@@ -11,7 +11,10 @@ from .values import (And, Ite, Not, Or, SBool, SBytes, SInt, SObj, SReal, SSeq, 
 
 class LoopSpec:
     def __init__(self, inv=None, variant=None, havoc=None, types=None, keep=(), unroll=False, name=None,
-                 havoc_heap=True, bound=None, at_head=None, at_back=None):
+                 havoc_heap=True, bound=None, at_head=None, at_back=None, first_iteration=False):
+        # first_iteration: execute ONE iteration from the actual entry state (no havoc, no invariant);
+        # the path ends at the back edge.  Used for single-step lemmas (e.g. one whole frame).
+        self.first_iteration = first_iteration
         self.at_head = at_head
         self.at_back = at_back
         self.inv = inv  # callable(L) -> cond | list[(name, cond)]
@@ -395,6 +398,10 @@ class VCRuntime:
         info = u.fn_infos[self.fn_id]
         linfo = info.loops[k]
         tag = f"{self.fn_id}.loop{k}"
+        if spec.first_iteration:
+            if spec.at_head is not None:
+                spec.at_head(dict(L))
+            return {}
         for nm, cond in _inv_items(spec, L):
             c.check(f"{tag}.init.{nm}", cond, kind="loop-init")
         # havoc
